@@ -34,9 +34,13 @@ func (*DeflateCompress) Compress(data []byte) ([]byte, error) {
 		log.Error(err)
 		return nil, err
 	}
-	defer fw.Close()
-	fw.Write(data)
-	fw.Flush()
+	if _, err = fw.Write(data); err != nil {
+		return nil, err
+	}
+	// Close writes the final block; without it the reader ends with an unexpected EOF
+	if err = fw.Close(); err != nil {
+		return nil, err
+	}
 	return buf.Bytes(), nil
 }
 
